@@ -144,6 +144,14 @@ Theorem ippo_two_routes_agree : forall (X : Type) (d : X) T E (Ms : list (list (
 Proof. exact ippo_two_routes_lemma. Qed.
 Print Assumptions ippo_two_routes_agree.
 
+(* get_experiences_samples indexes all six tensors with the same index array: a minibatch consists of whole rows *)
+Theorem minibatch_rows_aligned : forall idx a b c d e f,
+  length b = length a -> length c = length a -> length d = length a -> length e = length a -> length f = length a ->
+  Forall (fun i => (i < length a)%nat) idx ->
+  minibatch idx a b c d e f = gather dflt6 idx (combine6 a b c d e f).
+Proof. exact minibatch_rows_lemma. Qed.
+Print Assumptions minibatch_rows_aligned.
+
 (* The training loops record, at step t, the done flag returned by the previous step (zeros at the start of
    a rollout) and pass the last one as next_done; so the flag d_{t+1} of the recursion is the flag the
    environment returned for step t: "the episode ended with step t, a new one starts at t+1". *)
@@ -172,6 +180,13 @@ Theorem ippo_next_done_order_refuted :
     end.
 Proof. exact ippo_next_done_pinned_wrong. Qed.
 Print Assumptions ippo_next_done_order_refuted.
+
+(* ... and exactly there: with one agent per policy, or with one environment, the pinned layout is the right one *)
+Theorem ippo_next_done_order_invisible_when : forall nA E T g l obs act lp R V D nv nd,
+  (nA = 1%nat /\ (exists x, nd = [x] /\ length x = E)) \/ (E = 1%nat /\ Forall (fun x => length x = 1%nat) nd) ->
+  ippo_rows_pinned nA E T g l obs act lp R V D nv nd = ippo_rows nA E T g l obs act lp R V D nv nd.
+Proof. exact ippo_pinned_same_when_one_agent_or_env. Qed.
+Print Assumptions ippo_next_done_order_invisible_when.
 
 (* non-vacuity: concrete rollouts satisfy the hypotheses; the estimates are the expected numbers *)
 Example gae_example :
